@@ -69,6 +69,8 @@ def h_step(ctx):
             # 0, uleb length (1 byte, or 2 bytes incl. padded encodings), extended opcode
             if cfg.get('lenleb', 1) == 2:
                 ctx.assume(ctx.land((bs[1] & 0x80) != 0, (bs[2] & 0x80) == 0))
+                # the declared length stays inside the buffer (longer ones are ill-formed and excluded by the reference anyway)
+                ctx.assume(((bs[1] & 0x7f) | (bs[2] << 7)) <= n - 3)
                 opb = bs[3]
             else:
                 ctx.assume((bs[1] & 0x80) == 0)
